@@ -269,6 +269,10 @@ def ltModBorrow (m a : L4) : Nat :=
   let (_, borrow) := sbb a.l3 m.l3 borrow
   (borrow % 256) &&& 1
 
+/-- `curve25519/fp.rs: fn lexicographically_largest` — `from_mont`, then the trial subtraction of
+`HALF_MODULUS`; the answer is "no borrow". -/
+def lexLargestC (p : MontParams) (half a : L4) : Bool := ltModBorrow half (fromMontC p a) = 0
+
 /-- `bls12_381/fq.rs: fn is_valid`, `fp.rs: fn is_valid_u64` / `is_valid` — scan from the most
 significant limb (byte): first difference decides; equal to the modulus is invalid. The lists
 are given most-significant first. -/
